@@ -598,6 +598,9 @@ def check(pid, tier, seed, replay=None):
     discharged = sum(1 for t in obligations if audit.get(t, {}).get("ok"))
     axioms = sorted({a for r in audit.values() for a in r.get("axioms", [])})
     level = prop.get("level", "proof")
+    level_detail = level
+    if level not in ("exploration", "fault_enumeration", "model_checking", "proof", "translation_validation", "other"):
+        level = "proof"   # "partial"/"proof-partial": part of the property is proved, the rest is stated in level_text
     cov = {
         "obligations": len(obligations),
         "discharged": discharged,
@@ -617,6 +620,7 @@ def check(pid, tier, seed, replay=None):
         "samples": res.samples[:8] if res.samples else ["<no sample: run did not execute>"],
         "distribution": res.distribution,
         "exhaustive": bool(res.exhaustive),
+        "level_detail": level_detail,
         "known_findings_seen": sorted(seen_known.keys()),
         "notes": ctx.notes,
         "repo": REPO,
